@@ -71,5 +71,8 @@ ChargeDef(r)  == \A a \in 1..Len(r.q) : Abs(r.q[a] - (r.core[a] * 1000000 - r.dp
 DipUnit == 1889851
 Shift == <<1, 2, -3>>
 TransOK(r) == \A d \in 1..3 : Abs(r.dshift[d] - r.charge * Shift[d] * DipUnit) <= 5
+\* the dipole is the one implied by the published charges, coordinates and density: point charges q_a R_a plus the
+\* one-centre s-p hybridisation term -2 dd_a P(s, p_d) (products formed by the driver, summed here)
+DipoleFormula(r) == r.dipf => \A d \in 1..3 : Abs(Sum(r.dq[d], Len(r.dq[d])) + r.dh[d] - r.dip[d]) <= 3 + Len(r.dq[d])
 ElectronCount(r) == Abs(Sum(r.dp, Len(r.dp)) - r.nel * 1000000) <= 4 * Len(r.q)
 =============================================================================
